@@ -666,6 +666,28 @@ theorem C11_gen_wc_match (key head tail head0 tail0 : Bytes) (hlen : key.length 
       simp [hp']
   · simp [hgt]
 
+/-- **`wc_split` tied by translation.**  The model's `wcSplit` (head and tail of a name/synonym pattern around the
+first `*`; for a string without `*` both are the whole string, because `find_first_of` returns `npos`,
+`substr(0, npos)` is everything and `npos + 1` wraps to 0) IS the generated pair
+(`wc_split_head`, `wc_split_tail`), translated from `SolverOption::wc_split`'s `find_first_of` / `substr` / size_t `+`,
+for every string shorter than 2^63 bytes. -/
+theorem C11_gen_wc_split (b : Bytes) (hlen : b.length < 9223372036854775808) :
+    wcSplit b = (wc_split_head b, wc_split_tail b) := by
+  unfold wcSplit wc_split_head wc_split_tail wc_split_pos StdStr.findFirstOf hasStar star
+  by_cases h : b.any (fun c => c == 42) = true
+  · have hk := StdStr.takeWhile_length_lt_of_any 42 b h
+    have hu : StdStr.uadd (b.takeWhile (fun x => x != 42)).length 1 = (b.takeWhile (fun x => x != 42)).length + 1 := by
+      unfold StdStr.uadd; omega
+    have hbig : (b.drop ((b.takeWhile (fun x => x != 42)).length + 1)).length ≤ StdStr.npos := by
+      unfold StdStr.npos; simp; omega
+    simp only [h, if_true, StdStr.substr, List.drop_zero, hu, StdStr.take_takeWhile_length,
+      List.take_of_length_le hbig]
+    rw [← List.drop_drop, StdStr.drop_takeWhile_length]
+  · have h' : b.any (fun c => c == 42) = false := Bool.eq_false_iff.mpr h
+    have hbig : b.length ≤ StdStr.npos := by unfold StdStr.npos; omega
+    have hz : StdStr.uadd StdStr.npos 1 = 0 := by decide
+    simp [h', StdStr.substr, hz, List.take_of_length_le hbig]
+
 /-- the loop shapes the pointer machines `pScan` / `pSkipToMatchingQuote` model -/
 theorem C11_gen_shapes :
     SkipSpaces_shape = Expected.scanShape ∧ SkipNonSpaces_shape = Expected.scanShape ∧ SkipToEnd_shape = Expected.scanShape ∧
@@ -810,6 +832,9 @@ example : parseStr cxCfg [120, 61, 39, 97, 98] cxSt0 =
 -- option `obj:*:priority obj_*_priority objpri*`, key `objpri3`: the body is `3` (not `ri3`)
 example : (lookup (buildTable [{ id := 0, name := [111,98,106,58,42,58,112], syns := [[111,98,106,95,42,95,112], [111,98,106,112,114,105,42]], kind := .int }])
     [111,98,106,112,114,105,51]).map (·.2) = some (some [51]) := by decide
+-- `wc_split` on `o:*:p` and on a star-less synonym `plain` (the quirk: head = tail = the whole string)
+example : (Gen.C11Tok.wc_split_head [111, 58, 42, 58, 112], Gen.C11Tok.wc_split_tail [111, 58, 42, 58, 112]) = ([111, 58], [58, 112]) := by decide
+example : (Gen.C11Tok.wc_split_head [112, 108], Gen.C11Tok.wc_split_tail [112, 108]) = ([112, 108], [112, 108]) := by decide
 -- strtod extent: "1.5e3x" consumes 5 bytes, "0x" consumes 1, "nan(1)" consumes 6
 example : (parseDbl [49, 46, 53, 101, 51, 120]).2 = [120] := by decide
 example : (parseDbl [48, 120]).2 = [120] := by decide
